@@ -153,9 +153,7 @@ theorem maybeGetVar_multiline (source : Bytes) (env : TEnv) (var : MetaVarExtrac
     (r : Nat × Nat) (hr : varRange env var = some r)
     (l₀ : Bytes) (ls : List Bytes) (hs : slice source r = joinNL (l₀ :: ls)) (hne : ls ≠ [])
     (hnl : ∀ l ∈ l₀ :: ls, NL ∉ l)
-    (hw : ∀ l ∈ ls, getIndentAtOffset (source.take r.1) ≤ lead l)
-    (hf : getIndentAtOffset (source.take r.1) ≤ c ∨
-          lead l₀ < getIndentAtOffset (source.take r.1) - c) :
+    (hw : ∀ l ∈ ls, getIndentAtOffset (source.take r.1) ≤ lead l) :
     maybeGetVar source env var c =
       some (joinNL (l₀ :: ls.map (reindent (getIndentAtOffset (source.take r.1)) c))) := by
   obtain ⟨s, e⟩ := r
@@ -169,11 +167,11 @@ theorem maybeGetVar_multiline (source : Bytes) (env : TEnv) (var : MetaVarExtrac
   | single n =>
     simp only [varRange] at hr
     simp only [maybeGetVar, hr, hx, hs]
-    rw [indentLines_shift_lines _ c l₀ ls hnl hw hf]
+    rw [indentLines_shift_lines _ c l₀ ls hnl hw]
   | multiple n =>
     simp only [varRange] at hr
     simp only [maybeGetVar, hr, hx, hs]
-    rw [indentLines_shift_lines _ c l₀ ls hnl hw hf]
+    rw [indentLines_shift_lines _ c l₀ ls hnl hw]
   | transformed n => simp [varRange] at hr
 
 theorem maybeGetVar_transformed (source : Bytes) (env : TEnv) (n : Bytes) (c : Nat) (b : Bytes)
